@@ -70,7 +70,8 @@ Definition unlock (h : heap) (id : nat) : heap :=
 
 (* ---------- MemBlob ---------- *)
 (* new MemBlob(reserveSize): memAlloc; the object starts with LockCount 0 *)
-Definition mb_new (h : heap) (n : N) : heap * nat := (h ++ [mkBlob [] (alloc_cap n) 0], length h).
+Definition cap32 (n : N) : N := alloc_cap n mod two32.     (* capacity = actualAlloc, a size_type *)
+Definition mb_new (h : heap) (n : N) : heap * nat := (h ++ [mkBlob [] (cap32 n) 0], length h).
 Definition mb_spaceSize (b : blob) : N := bcap b - bsize b.
 Definition mb_willFit (b : blob) (n : N) : bool := n <=? mb_spaceSize b.
 Definition mb_canAppend (b : blob) (off n : N) : bool := ((off =? bsize b) && mb_willFit b n) || (n =? 0).
@@ -124,6 +125,7 @@ Definition cow (h : heap) (s : sbuf) (newsize0 : N) : res (heap * sbuf) :=
 
 (* SBuf::rawSpace(minSpace) *)
 Definition rawSpace (h : heap) (s : sbuf) (minSpace : N) : res (heap * sbuf) :=
+  if maxSize <? minSpace then Throw (h, s) else
   if sub32 maxSize minSpace <? slen s then Throw (h, s) else
   if mb_canAppend (getb h (sstore s)) (soff s + slen s) minSpace then Ok (h, s)
   else cow h s (add32 minSpace (slen s)).
@@ -186,7 +188,7 @@ Definition sb_append (h : heap) (s S : sbuf) (self : bool) : res (heap * sbuf) :
 (* SBuf::chop(pos, n) *)
 Definition sb_chop (h : heap) (s : sbuf) (pos0 n0 : N) : heap * sbuf :=
   let pos := if (pos0 =? npos) || (slen s <? pos0) then slen s else pos0 in
-  let n := if (n0 =? npos) || (slen s <? add32 pos n0) then slen s - pos else n0 in
+  let n := if (n0 =? npos) || (slen s - pos <? n0) then slen s - pos else n0 in
   if (pos =? slen s) || (n =? 0) then sb_clear h s
   else (h, mkSBuf (sstore s) (soff s + pos) n).
 
@@ -233,6 +235,7 @@ Definition c_islower (c : N) : bool := tbl_get false gen_islower c.
 Definition c_tolower (c : N) : Z := tbl_get 0%Z gen_tolower c.
 Definition c_toupper (c : N) : Z := tbl_get 0%Z gen_toupper c.
 Definition c_value (c : N) : Z := tbl_get 0%Z gen_char_value c.
+Definition c_tolower_u (c : N) : Z := tbl_get 0%Z gen_tolower_uchar c.   (* tolower(static_cast<unsigned char>(c)) *)
 Definition to_char (z : Z) : N := Z.to_N (z mod 256).    (* int -> char -> stored byte *)
 
 (* SBuf::toLower() / toUpper(): for j < length(): c = this->operator[](j); if is(c) setAt(j, to(c)) *)
@@ -282,6 +285,7 @@ Definition sb_rawAppend (h : heap) (s : sbuf) (n : N) (w : bytes) : rawres :=
       let a := lenN w in
       (* rawAppendFinish *)
       if negb (mb_canAppend b (soff s1 + slen s1) a) then RawThrow h1 s1 else
+      if a =? 0 then RawOk h1 s1 else                       (* if (!actualSize) return; *)
       if N.min maxSize (bcap b - soff s1) <? slen s1 + a then RawThrow h1 s1 else
       if bsize b <? soff s1 + slen s1 then RawUndef else
       (* len_ = newSize; store_->size = off_ + newSize : bytes w now lie at mem[off_+len_ ..) *)
@@ -376,7 +380,7 @@ Definition sgnZ (z : Z) : Z := Z.sgn z.
 (* compare(const SBuf &S, isCaseSensitive, n) : sign of the result *)
 Definition sb_compare_all (a s : bytes) (ci : bool) (n : N) : Z :=
   let k := N.min (lenN s) (lenN a) in
-  let rv := cmp_with (if ci then c_tolower else Z.of_N) (takeN k a) (takeN k s) in
+  let rv := cmp_with (if ci then c_tolower_u else Z.of_N) (takeN k a) (takeN k s) in
   if negb (rv =? 0)%Z then sgnZ rv else
   if (n <=? lenN a) || (n <=? lenN s) then 0%Z else
   if lenN a =? lenN s then 0%Z else
@@ -444,7 +448,7 @@ Section Step.
 Variable alloc_cap : N -> N.
 
 Definition init_state (nv : nat) : state :=
-  mkState [mkBlob [] (alloc_cap 0) (1 + N.of_nat nv)] (repeat sb0 nv).
+  mkState [mkBlob [] (alloc_cap 0 mod two32) (1 + N.of_nat nv)] (repeat sb0 nv).
 
 Definition fin (st : state) (i : nat) (r : res (heap * sbuf)) : state * out :=
   match r with
